@@ -412,7 +412,7 @@ def main(argv=None):
     chk.trusted = ["BigInt<bits> word operations meet their bit-vector specifications (C02)", "clang -O1 IR vs -Ofast build (replay uses shipped flags)", "z3"]
     chk.assumptions = ["later iterations: c <= 2^(bits-1) + 2^(w-1), implied by the invariant (lemma B2)"]
     # lower layers whose specifications this check relies on: their obligations are part of this check's claim (framework.Check.include)
-    for dep in ['C02', 'C03', 'C04', 'C05', 'C18', 'C19']:
+    for dep in ['C02', 'C03', 'C04', 'C05', 'C18', 'C19', 'C20']:
         chk.include(dep)
     chk.run()
     chk.finish()
